@@ -59,13 +59,29 @@ def build(seed):
         body.append(['dim', 'dim', nm, ('rec', g.types[-1][0]), None])
         main.records.append((nm, g.types[-1][0]))
 
+    uniq = [0]
+
+    def ulit(t):
+        # a value that no other location holds, so that a read of the wrong cell cannot go unnoticed
+        uniq[0] += 1
+        k_ = uniq[0]
+        if t == '%':
+            return ('lit', '%', 100 + k_)
+        if t == '&':
+            return ('lit', '&', 100000 + k_)
+        if t == '!':
+            return ('lit', '!', k_ + 0.25)
+        if t == '#':
+            return ('lit', '#', k_ + 0.125)
+        return ('lit', '$', f's{k_}')
+
     def assign_all(sc, out, include_shared):
         scopes = [sc] + ([g.shared] if include_shared else [])
         for scope in scopes:
             for n_, t in scope.scalars:
                 if n_ in sc.loopvars:
                     continue
-                out.append(['let', ('var', n_, t), g.lit(t) if r.random() < 0.8 else ('un', '-', g.lit(t)) if t != '$' else g.lit(t), False])
+                out.append(['let', ('var', n_, t), ulit(t) if r.random() < 0.8 else ('un', '-', ulit(t)) if t != '$' else ulit(t), False])
             for n_, et, dims, dyn in scope.arrays:
                 # assign every element (small arrays) so that all reads are of assigned cells
                 import itertools
@@ -75,14 +91,14 @@ def build(seed):
                         base = ('elem', n_, et, ie)
                         for ft in '%&!#$':
                             for f in g.fields_of(base, et[1], ft):
-                                out.append(['let', f, g.lit(ft), False])
+                                out.append(['let', f, ulit(ft), False])
                     else:
-                        out.append(['let', ('elem', n_, et, ie), g.lit(et), False])
+                        out.append(['let', ('elem', n_, et, ie), ulit(et), False])
             for n_, tn_ in scope.records:
                 base = ('var', n_, ('rec', tn_))
                 for ft in '%&!#$':
                     for f in g.fields_of(base, tn_, ft):
-                        out.append(['let', f, g.lit(ft), False])
+                        out.append(['let', f, ulit(ft), False])
     assign_all(main, body, True)
     probes = []
 
